@@ -244,11 +244,19 @@ ALL = [f"C{i:02d}" for i in range(1, 21)]
 
 
 def main():
+    sys.path.insert(0, str(VERIF))
+    from rules.borrowed import BORROWED
     checks = []
     for pid in ALL:
         if pid not in CLAIMS:
             continue
-        c = CLAIMS[pid]
+        c = dict(CLAIMS[pid])
+        c["note"] += (" Where an obligation is a function of finitely many guards or of a small concrete domain it is decided on the term "
+                      "extracted from the source (decision table / evaluation on a separating grid); the shape rules are the proof form "
+                      "(DESIGN.md 10.9). An unrecognised form is exit 2, never a VIOLATION.")
+        if pid in BORROWED:
+            shared = "; ".join(f"{nb}: " + ", ".join(r.split(" ")[0] for r in rules) for nb, rules in BORROWED[pid].items())
+            c["note"] += f" The check also takes over rules of neighbouring checks that seeded changes showed necessary for this property ({shared}; rules/borrowed.py, DESIGN.md 10.10)."
         checks.append({
             "property_id": pid,
             "quick_cmd": f"./check {pid} --tier quick",
